@@ -440,6 +440,8 @@ def peer_g2_cases(r, n):
                 pos[q] = 0                      # starts over
             elif x < 0.15:
                 pos[q] = r.randrange(nb + 1)    # random access
+            elif x < 0.22:
+                pos[q] = r.choice([nb, nb + 1, nb + 7, 1000, 1048575])   # beyond the end of the body
             items.append("%d/%d/%s" % (pos[q], s, q))
             pos[q] = pos[q] + 1 if pos[q] + 1 < nb else 0
         out.append("peer g2 %d %d %d %s" % (ln, r.randrange(250), r.choice([7, 7, s]), " ".join(items)))
